@@ -8,6 +8,7 @@
 #![allow(clippy::all)]
 #![allow(unused_imports, dead_code)]
 
+pub mod gen_display;
 pub mod model;
 pub mod ms;
 pub mod spec;
